@@ -133,7 +133,7 @@ def gen_files(names):
     return True, out
 
 
-ALL_GENS = ["registry"]
+ALL_GENS = ["registry", "ruletable", "ir"]
 
 
 def coq_make(timeout=1500):
